@@ -115,6 +115,11 @@ def run(chk):
             for fnd in r.findings:
                 r5.fail("via-" + fnd.key, "a stored value does not come back: " + fnd.msg, file=fnd.file, line=fnd.line)
     r5.ok("serializer writer/reader tables and the COMPRESSED flag decision agree (%d obligations of C15.R2/R3/R5 re-checked)" % n_sub)
+    # a fetch answers from its own reply: a connection that stays in use after a failed exchange delivers an older
+    # request's reply - the value of another key, or the value this key had before it was overwritten
+    from . import rules_C01
+
+    report.include_rules(chk, r5, rules_C01, ("C01.R1",), "a failed exchange closes the connection, so no later fetch reads the reply of an earlier request")
     # the value block is delivered as sent however the reply is cut into pieces (the sized reader's segmentation rows)
     from . import rules_C03
 
